@@ -20,6 +20,10 @@ import TetlProofs.C06.Search
 import TetlProofs.C06.Gnome
 import TetlProofs.C06.Bubble
 import TetlProofs.C06.Insertion
+import TetlProofs.C06.MinMax
+import TetlProofs.C06.SetLoops
+import TetlProofs.C06.SetSpec
+import TetlProofs.C06.IsPerm
 namespace Tetl.C06.Props
 open Tetl Tetl.C06
 variable {α : Type}
@@ -688,5 +692,90 @@ theorem stableSort_characterisation (lt : α → α → Bool) (hlt : StrictWeak 
         L = Spec.stableSort lt R) :=
   ⟨stableSort_perm lt R, stableSort_sorted hlt R, stableSort_filter hlt R, fun L hp hs hf => stableSort_unique hlt L R hp hs hf⟩
 example : StrictWeak (fun x y : Nat => decide (x < y)) := strictWeak_nat
+
+/-! ## min_element / max_element / minmax_element (first smallest, first largest; minmax: first smallest, LAST largest) -/
+
+theorem minElement_eq (lt : α → α → Bool) (hlt : StrictWeak lt) (P R S : List α) :
+    minElement lt (P ++ R ++ S) P.length (P.length + R.length) = .ok (P.length + Spec.minElement lt R) :=
+  minElement_spec lt hlt P R S
+example : StrictWeak (fun x y : Nat => decide (x < y)) := strictWeak_nat
+
+theorem maxElement_eq (lt : α → α → Bool) (hlt : StrictWeak lt) (P R S : List α) :
+    maxElement lt (P ++ R ++ S) P.length (P.length + R.length) = .ok (P.length + Spec.maxElement lt R) :=
+  maxElement_spec lt hlt P R S
+example : StrictWeak (fun x y : Nat => decide (x < y)) := strictWeak_nat
+
+theorem minmaxElement_eq (lt : α → α → Bool) (hlt : StrictWeak lt) (P R S : List α) :
+    minmaxElement lt (P ++ R ++ S) P.length (P.length + R.length)
+      = .ok (P.length + Spec.minElement lt R, P.length + Spec.maxElementLast lt R) :=
+  minmaxElement_spec lt hlt P R S
+example : StrictWeak (fun x y : Nat => decide (x < y)) := strictWeak_nat
+
+/-! ## includes / set_difference / set_intersection / set_symmetric_difference / set_union
+    (preconditions [alg.set.operations]: strict weak order, both ranges sorted; the specs are the standard's
+    multiplicity rules: of `m` equivalents in the first and `n` in the second range …) -/
+
+theorem setDifference_eq (lt : α → α → Bool) (hlt : StrictWeak lt) (P R S Q T U : List α)
+    (hR : Sorted lt R) (hT : Sorted lt T) :
+    setDifference lt (P ++ R ++ S) P.length (P.length + R.length) (Q ++ T ++ U) Q.length (Q.length + T.length)
+      = .ok (Spec.setDifference lt R T) := by
+  rw [setDifference_loop, diffL_eq lt hlt R T hR hT]
+example : StrictWeak (fun x y : Nat => decide (x < y)) ∧ Sorted (fun x y : Nat => decide (x < y)) [1, 2, 2] ∧
+    Sorted (fun x y : Nat => decide (x < y)) [2, 3] := ⟨strictWeak_nat, by simp [Sorted], by simp [Sorted]⟩
+
+theorem setIntersection_eq (lt : α → α → Bool) (hlt : StrictWeak lt) (P R S Q T U : List α)
+    (hR : Sorted lt R) (hT : Sorted lt T) :
+    setIntersection lt (P ++ R ++ S) P.length (P.length + R.length) (Q ++ T ++ U) Q.length (Q.length + T.length)
+      = .ok (Spec.setIntersection lt R T) := by
+  rw [setIntersection_loop, interL_eq lt hlt R T hR hT]
+example : StrictWeak (fun x y : Nat => decide (x < y)) ∧ Sorted (fun x y : Nat => decide (x < y)) [1, 2, 2] ∧
+    Sorted (fun x y : Nat => decide (x < y)) [2, 3] := ⟨strictWeak_nat, by simp [Sorted], by simp [Sorted]⟩
+
+theorem setSymmetricDifference_eq (lt : α → α → Bool) (hlt : StrictWeak lt) (P R S Q T U : List α)
+    (hR : Sorted lt R) (hT : Sorted lt T) :
+    setSymmetricDifference lt (P ++ R ++ S) P.length (P.length + R.length) (Q ++ T ++ U) Q.length (Q.length + T.length)
+      = .ok (Spec.setSymmetricDifference lt R T) := by
+  rw [setSymmetricDifference_loop, symL_eq lt hlt R T hR hT]
+example : StrictWeak (fun x y : Nat => decide (x < y)) ∧ Sorted (fun x y : Nat => decide (x < y)) [1, 2, 2] ∧
+    Sorted (fun x y : Nat => decide (x < y)) [2, 3] := ⟨strictWeak_nat, by simp [Sorted], by simp [Sorted]⟩
+
+theorem setUnion_eq (lt : α → α → Bool) (hlt : StrictWeak lt) (P R S Q T U : List α)
+    (hR : Sorted lt R) (hT : Sorted lt T) :
+    setUnion lt (P ++ R ++ S) P.length (P.length + R.length) (Q ++ T ++ U) Q.length (Q.length + T.length)
+      = .ok (Spec.setUnion lt R T) := by
+  rw [setUnion_loop, unionL_eq lt hlt R T hR hT]
+example : StrictWeak (fun x y : Nat => decide (x < y)) ∧ Sorted (fun x y : Nat => decide (x < y)) [1, 2, 2] ∧
+    Sorted (fun x y : Nat => decide (x < y)) [2, 3] := ⟨strictWeak_nat, by simp [Sorted], by simp [Sorted]⟩
+
+/-- `includes(first1,last1,first2,last2)`: every element of the second range, with multiplicity, is in the first -/
+theorem includes_eq (lt : α → α → Bool) (hlt : StrictWeak lt) (P R S Q T U : List α)
+    (hR : Sorted lt R) (hT : Sorted lt T) :
+    includes lt (P ++ R ++ S) P.length (P.length + R.length) (Q ++ T ++ U) Q.length (Q.length + T.length)
+      = .ok (Spec.includes lt R T) := by
+  rw [includes_loop, inclL_eq lt hlt R T hR hT]
+example : StrictWeak (fun x y : Nat => decide (x < y)) ∧ Sorted (fun x y : Nat => decide (x < y)) [1, 2, 2] ∧
+    Sorted (fun x y : Nat => decide (x < y)) [2, 3] := ⟨strictWeak_nat, by simp [Sorted], by simp [Sorted]⟩
+
+/-! ## is_permutation (hypothesis: the binary predicate is an equivalence relation, [alg.is.permutation]) -/
+
+/-- 4-iterator overload (as repaired: lengths compared for every iterator category) -/
+theorem isPermutation4_eq (eq : α → α → Bool) (heq : EquivB eq) (P R S Q T U : List α) :
+    isPermutation4 eq (P ++ R ++ S) P.length (P.length + R.length) (Q ++ T ++ U) Q.length (Q.length + T.length)
+      = .ok (Spec.isPermutation eq R T) :=
+  isPermutation4_spec eq heq P R S Q T U
+example : EquivB (fun x y : Nat => x == y) := equivB_nat
+
+/-- 3-iterator overload: the second range is taken to have the length of the first (precondition: it has at least
+    that many elements) -/
+theorem isPermutation3_eq (eq : α → α → Bool) (heq : EquivB eq) (P R S Q T U : List α) (h : R.length ≤ T.length) :
+    isPermutation3 eq (P ++ R ++ S) P.length (P.length + R.length) (Q ++ T ++ U) Q.length (Q.length + T.length)
+      = .ok (Spec.isPermutation eq R (T.take R.length)) :=
+  isPermutation3_spec eq heq P R S Q T U h
+example : EquivB (fun x y : Nat => x == y) ∧ [1, 2].length ≤ [2, 1, 3].length := ⟨equivB_nat, by decide⟩
+
+/-- for `==` on a type with lawful equality the spec of is_permutation is `List.Perm` -/
+theorem isPermutation_spec_iff_perm [BEq α] [LawfulBEq α] (R T : List α) :
+    Spec.isPermutation (fun x y => x == y) R T = true ↔ R.Perm T :=
+  isPermutation_iff_perm R T
 
 end Tetl.C06.Props
